@@ -1,10 +1,70 @@
 package main
 
-// tryReplay turns a solver model into a run of the real code. Filled in per function shape (adaptors).
+import (
+	"context"
+	"encoding/json"
+	"fmt"
+	"os"
+	"os/exec"
+	"path/filepath"
+	"strings"
+	"time"
+)
+
+// runOverlayTest injects an in-package test file into /repo/<pkgRel> through `go test -overlay` (nothing is
+// written into /repo) and runs the named test. ok = the test FAILED (panic, timeout or t.Fatal): reproduced.
+func runOverlayTest(pkgRel, testName, src string) (string, bool) {
+	tmp, err := os.MkdirTemp("", "govc-replay")
+	if err != nil {
+		return err.Error(), false
+	}
+	defer os.RemoveAll(tmp)
+	testFile := filepath.Join(tmp, "zz_verif_replay_test.go")
+	os.WriteFile(testFile, []byte(src), 0o644)
+	target := filepath.Join(repoDir, pkgRel, "zz_verif_replay_test.go")
+	ov := map[string]any{"Replace": map[string]string{target: testFile}}
+	data, _ := json.Marshal(ov)
+	ovFile := filepath.Join(tmp, "ov.json")
+	os.WriteFile(ovFile, data, 0o644)
+	ctx, cancel := context.WithTimeout(context.Background(), 180*time.Second)
+	defer cancel()
+	cmd := exec.CommandContext(ctx, "bash", "-c", fmt.Sprintf("ulimit -v 8000000; cd %s && go test -overlay %s -vet=off -count=1 -timeout 60s -run '^%s$' ./%s", repoDir, ovFile, testName, pkgRel))
+	cmd.Env = append(os.Environ(), "GOFLAGS=-mod=mod", "GOPROXY=off", "GOSUMDB=off", "GOTOOLCHAIN=local")
+	out, _ := cmd.CombinedOutput()
+	s := string(out)
+	if len(s) > 6000 {
+		s = s[:3000] + "\n...\n" + s[len(s)-3000:]
+	}
+	failed := strings.Contains(s, "--- FAIL") || strings.Contains(s, "panic:") || strings.Contains(s, "test timed out") || strings.Contains(s, "FAIL\t")
+	built := !strings.Contains(s, "[build failed]") && !strings.Contains(s, "[setup failed]")
+	return s, failed && built
+}
+
+// tryReplay turns a solver model into a run of the real code, per function shape.
 func tryReplay(w *World, o *Obligation, rp *ReplayFile) {
+	for _, a := range replayAdaptors {
+		if strings.HasPrefix(o.Family, a.prefix) {
+			src, pkg, name, ok := a.gen(o, rp)
+			if !ok {
+				continue
+			}
+			rp.TestSource, rp.TestPkg, rp.TestName = src, pkg, name
+			out, failed := runOverlayTest(pkg, name, src)
+			rp.ReplayLog = out
+			if failed {
+				rp.Outcome = "reproduced"
+			} else {
+				rp.Outcome = "not-reproduced"
+			}
+			return
+		}
+	}
 	rp.Outcome = "no-adaptor"
 }
 
-func runOverlayTest(pkg, name, src string) (string, bool) {
-	return "", false
+type replayAdaptor struct {
+	prefix string
+	gen    func(o *Obligation, rp *ReplayFile) (src, pkg, name string, ok bool)
 }
+
+var replayAdaptors []replayAdaptor
